@@ -664,6 +664,7 @@ type wresult struct {
 	Sigs       map[string]int64 `json:"sigs"`
 	Fails      map[string][]any `json:"fails"` // key -> [seq, msg, count]
 	Cut        bool             `json:"cut"`
+	Completed  int              `json:"completed"`
 }
 
 func names(seq []int) []string {
@@ -674,8 +675,26 @@ func names(seq []int) []string {
 	return o
 }
 
-func worker(idx, nw, depth int, ops []int, deadline time.Time, keep map[string]bool) wresult {
-	r := wresult{ByDepth: map[int]int64{}, Sigs: map[string]int64{}, Fails: map[string][]any{}}
+// worker runs iterative deepening: every sequence up to depths[0], then up to depths[1], ... so that a
+// deadline cuts the deepest level only (shorter sequences are re-run as prefixes, counted once).
+func worker(idx, nw int, depths []int, ops []int, deadline time.Time, keep map[string]bool) wresult {
+	r := wresult{ByDepth: map[int]int64{}, Sigs: map[string]int64{}, Fails: map[string][]any{}, Completed: 0}
+	prev := 0
+	for _, depth := range depths {
+		cutBefore := r.Cut
+		workerPass(&r, idx, nw, prev, depth, ops, deadline, keep)
+		if !r.Cut && !cutBefore {
+			r.Completed = depth
+		}
+		prev = depth
+		if r.Cut {
+			break
+		}
+	}
+	return r
+}
+
+func workerPass(r *wresult, idx, nw, prev, depth int, ops []int, deadline time.Time, keep map[string]bool) {
 	var rec func(seq []int)
 	rec = func(seq []int) {
 		if time.Now().After(deadline) {
@@ -685,7 +704,7 @@ func worker(idx, nw, depth int, ops []int, deadline time.Time, keep map[string]b
 		if len(seq) == 2 && (seq[0]*nOps+seq[1])%nw != idx {
 			return
 		}
-		mine := len(seq) >= 2 || idx == 0
+		mine := (len(seq) >= 2 || idx == 0) && len(seq) > prev
 		var o outcome
 		o.Applicable = true
 		if len(seq) > 0 {
@@ -726,7 +745,6 @@ func worker(idx, nw, depth int, ops []int, deadline time.Time, keep map[string]b
 		}
 	}
 	rec(nil)
-	return r
 }
 
 // Main runs the search for one property. keep selects the failure keys that count for it.
@@ -741,8 +759,13 @@ func Main(property string, keep map[string]bool, rule string) int {
 		depth = 7
 		budget = 20 * time.Minute
 	}
+	depths := []int{depth}
+	if tier == "thorough" {
+		depths = []int{depth - 1, depth}
+	}
 	if d := os.Getenv("VERIF_DEPTH"); d != "" {
 		fmt.Sscanf(d, "%d", &depth)
+		depths = []int{depth}
 	}
 	var ops []int
 	for i := 0; i < nOps; i++ {
@@ -782,7 +805,7 @@ func Main(property string, keep map[string]bool, rule string) int {
 		fmt.Sscanf(w, "%d/%d", &idx, &nw)
 		var dl int64
 		fmt.Sscanf(os.Getenv("VERIF_DEADLINE"), "%d", &dl)
-		r := worker(idx, nw, depth, ops, time.Unix(dl, 0), keep)
+		r := worker(idx, nw, depths, ops, time.Unix(dl, 0), keep)
 		b, _ := json.Marshal(r)
 		_ = os.WriteFile(os.Getenv("VERIF_WORKER_OUT"), b, 0o644)
 		return 0
@@ -845,6 +868,7 @@ func Main(property string, keep map[string]bool, rule string) int {
 	}
 	fails := map[string]*fv{}
 	var runs, appl int64
+	cut, completed := false, depth
 	for _, r := range results {
 		if r == nil {
 			continue
@@ -852,7 +876,10 @@ func Main(property string, keep map[string]bool, rule string) int {
 		runs += r.Runs
 		appl += r.Applicable
 		if r.Cut {
-			run.NotExhaustive("deadline reached before every event sequence up to the depth was run")
+			cut = true
+		}
+		if r.Completed < completed {
+			completed = r.Completed
 		}
 		for k := range r.Sigs {
 			sigs[k] = true
@@ -882,7 +909,11 @@ func Main(property string, keep map[string]bool, rule string) int {
 	run.Add("traces_validated_against_impl", runs)
 	run.Add("evaluations", runs)
 	run.DistinctN(int64(len(sigs)))
+	if cut {
+		run.NotExhaustive(fmt.Sprintf("deadline reached: every event sequence up to length %d was run, those of length %d only in part", completed, depth))
+	}
 	run.Coverage["max_depth"] = depth
+	run.Coverage["max_depth_completed"] = completed
 	run.Coverage["event_alphabet"] = opNames
 	run.Coverage["applicable_sequences_by_length"] = byDepth
 	run.Sample(map[string]any{"events": []string{opNames[opNewTermNext], opNames[opAppendNext], opNames[opSnapshotBroken], opNames[opNewTermSame], opNames[opCrash]}})
